@@ -353,11 +353,21 @@ func runFamily(spec *Spec, f *Family, variant, bin, tier string, seed int64) *fa
 	}
 	// crash triage
 	for i, sh := range res.crashShards {
+		if i >= maxTriage && !f.FatalPerCase && len(res.viol) > 0 {
+			// a change that makes the process die in hundreds of shards would keep the triage busy for hours:
+			// once deaths have been attributed and reported, the remaining ones are only counted
+			res.Exhaustive = false
+			res.Cap = fmt.Sprintf("%d shards ended in the death of the worker; the first %d were examined case by case", len(res.crashShards), maxTriage)
+			break
+		}
 		triageCrash(res, bin, f, tier, variant, sh, res.crashKinds[i], hang)
 	}
 	res.WallS = time.Since(start).Seconds()
 	return res
 }
+
+// maxTriage bounds the number of crashed shards examined case by case per family (see runFamily).
+const maxTriage = 6
 
 func mergeFinal(res *famResult, fin *workerFinal) {
 	res.Leaves += fin.Leaves
